@@ -788,6 +788,243 @@ func c17TCPCloseAfterBurst() vh.Unit {
 	}}
 }
 
+// Real sockets, control frames: a peer that pings (third-party clients do) while large messages are
+// on their way to it. The codec's read loop answers pings while its writers write; what the peer
+// reads are the messages, whole and in order, and nobody panics.
+func c17TCPPingWhileWriting() vh.Unit {
+	return vh.Unit{Name: "tcp/ping-while-large-messages-in-flight", Run: func(u *vh.U) {
+		const n, size = 6, 2 << 20
+		for _, role := range []string{"server-codec", "client-codec"} {
+			ln, err := net.Listen("tcp", "127.0.0.1:0")
+			if err != nil {
+				u.R.Infra = err.Error()
+				return
+			}
+			codecCh := make(chan jsonrpc2.Codec, 1)
+			rawCh := make(chan *websocket.Conn, 1)
+			srv := &http.Server{Handler: http.HandlerFunc(func(w http.ResponseWriter, r *http.Request) {
+				if role == "server-codec" {
+					if c, err := (&gorillacodec.Upgrader{}).Upgrade(r, w, nil); err == nil {
+						codecCh <- c
+					}
+					return
+				}
+				up := websocket.Upgrader{CheckOrigin: func(*http.Request) bool { return true }}
+				if c, err := up.Upgrade(w, r, nil); err == nil {
+					rawCh <- c
+				}
+			})}
+			go srv.Serve(ln)
+			var codec jsonrpc2.Codec
+			var raw *websocket.Conn
+			ctx, cancel := context.WithTimeout(context.Background(), 2*time.Minute)
+			if role == "server-codec" {
+				raw, _, err = websocket.DefaultDialer.DialContext(ctx, "ws://"+ln.Addr().String()+"/", nil)
+				if err == nil {
+					select {
+					case codec = <-codecCh:
+					case <-ctx.Done():
+						err = ctx.Err()
+					}
+				}
+			} else {
+				codec, err = gorillacodec.WebSocketDial(ctx, "ws://"+ln.Addr().String()+"/")
+				if err == nil {
+					select {
+					case raw = <-rawCh:
+					case <-ctx.Done():
+						err = ctx.Err()
+					}
+				}
+			}
+			cancel()
+			if err != nil {
+				srv.Close()
+				u.Violate("tcp/handshake-failed", fmt.Sprintf("%s: %v", role, err), nil)
+				return
+			}
+			problems := make(chan string, 8)
+			// the codec's owner: a read loop (as Remote.Serve runs one) and a writer
+			go func() {
+				if p := vh.Recover(func() {
+					for {
+						if _, err := codec.ReadMessage(); err != nil {
+							return
+						}
+					}
+				}); p != "" {
+					problems <- "the codec's read loop panicked: " + firstN(p, 300)
+				}
+			}()
+			payload := strings.Repeat("q", size)
+			go func() {
+				if p := vh.Recover(func() {
+					for i := 0; i < n; i++ {
+						m, _ := vh.ParseMessage(fmt.Sprintf(`{"jsonrpc":"2.0","id":%d,"method":"m","params":[%q]}`, i, payload))
+						if err := codec.WriteMessage(m); err != nil {
+							problems <- fmt.Sprintf("write %d: %v", i, err)
+							return
+						}
+					}
+				}); p != "" {
+					problems <- "the writer panicked: " + firstN(p, 300)
+				}
+			}()
+			// the peer: pings every 2 ms while it reads, slowly
+			stopPings := make(chan struct{})
+			go func() {
+				for i := 0; ; i++ {
+					select {
+					case <-stopPings:
+						return
+					case <-time.After(2 * time.Millisecond):
+						raw.WriteControl(websocket.PingMessage, []byte(fmt.Sprint("p", i)), time.Now().Add(time.Minute))
+					}
+				}
+			}()
+			got := 0
+			var rerr error
+			raw.SetReadLimit(0)
+			for got < n {
+				raw.SetReadDeadline(time.Now().Add(3 * time.Minute))
+				_, r, err := raw.NextReader()
+				if err != nil {
+					rerr = err
+					break
+				}
+				buf := make([]byte, 64<<10)
+				total := 0
+				var head, tail []byte
+				for {
+					k, err := r.Read(buf)
+					if total == 0 && k > 0 {
+						head = append([]byte{}, buf[:min(k, 40)]...)
+					}
+					if k > 0 {
+						tail = append(tail, buf[:k]...)
+						if len(tail) > 80 {
+							tail = tail[len(tail)-80:]
+						}
+					}
+					total += k
+					if err != nil {
+						break
+					}
+					if total%(512<<10) < k {
+						time.Sleep(time.Millisecond)
+					}
+				}
+				if !strings.Contains(string(head)+string(tail), fmt.Sprintf(`"id":%d`, got)) || total < size || !strings.HasSuffix(strings.TrimSpace(string(tail)), "}") {
+					rerr = fmt.Errorf("message %d arrived as %d bytes: %q ... %q", got, total, head, tail)
+					break
+				}
+				got++
+			}
+			close(stopPings)
+			raw.Close()
+			codec.Close()
+			srv.Close()
+			u.R.Evaluations++
+			u.R.States++
+			u.R.Transitions += int64(got)
+			u.R.Traces++
+			u.Observe(fmt.Sprintf("tcp ping %s complete=%v", role, got == n))
+			select {
+			case p := <-problems:
+				u.Violate("tcp/gorilla/ping-disturbed-the-writers", fmt.Sprintf("%s, %d messages of %d MB while the peer pings every 2 ms: %s (peer got %d, %v)", role, n, size>>20, p, got, rerr), nil)
+				return
+			default:
+			}
+			if got != n {
+				u.Violate("tcp/gorilla/ping-disturbed-the-writers", fmt.Sprintf("%s, %d messages of %d MB while the peer pings every 2 ms: the peer read %d intact, then: %v", role, n, size>>20, got, rerr), nil)
+				return
+			}
+		}
+		u.Sample("6 x 2 MB over loopback TCP through the gorilla codec (as server and as client) while the peer pings every 2 ms")
+	}}
+}
+
+// Real sockets, the stream codec: a reader that stalls for seconds in the middle of a large
+// message and then carries on. Whatever the writer's WriteMessage calls reported as written
+// arrives, whole and in order.
+func c17TCPStalledReader() vh.Unit {
+	return vh.Unit{Name: "tcp/stream-reader-stalls-mid-message", Run: func(u *vh.U) {
+		ln, err := net.Listen("tcp", "127.0.0.1:0")
+		if err != nil {
+			u.R.Infra = err.Error()
+			return
+		}
+		defer ln.Close()
+		accepted := make(chan net.Conn, 1)
+		go func() {
+			if c, err := ln.Accept(); err == nil {
+				accepted <- c
+			}
+		}()
+		wconn, err := net.Dial("tcp", ln.Addr().String())
+		if err != nil {
+			u.R.Infra = err.Error()
+			return
+		}
+		rconn := <-accepted
+		defer wconn.Close()
+		defer rconn.Close()
+		wr := jsonrpc2.IOCodec(wconn)
+		const big = 12 << 20
+		texts := []string{
+			fmt.Sprintf(`{"jsonrpc":"2.0","id":1,"method":"big","params":[%q]}`, strings.Repeat("s", big)),
+			`{"jsonrpc":"2.0","id":2,"method":"after","params":["x"]}`,
+			`{"jsonrpc":"2.0","id":3,"result":{"ok":true}}`,
+		}
+		werrs := make(chan []error, 1)
+		go func() {
+			var errs []error
+			for _, t := range texts {
+				m, _ := vh.ParseMessage(t)
+				errs = append(errs, wr.WriteMessage(m))
+			}
+			werrs <- errs
+		}()
+		// the reader: a few kB, then nothing for 6.5 s, then the rest - through the codec under test
+		head := make([]byte, 64<<10)
+		nHead, _ := io.ReadFull(rconn, head)
+		time.Sleep(6500 * time.Millisecond)
+		rd := jsonrpc2.IOCodec(struct {
+			io.Reader
+			io.Writer
+			io.Closer
+		}{io.MultiReader(bytes.NewReader(head[:nHead]), rconn), io.Discard, rconn})
+		var got []string
+		var rerr error
+		for range texts {
+			rconn.SetReadDeadline(time.Now().Add(90 * time.Second))
+			m, err := rd.ReadMessage()
+			if err != nil {
+				rerr = err
+				break
+			}
+			got = append(got, string(m.ID))
+		}
+		errs := <-werrs
+		u.R.Evaluations++
+		u.R.States++
+		u.R.Transitions += int64(len(got))
+		u.R.Traces++
+		u.Observe(fmt.Sprintf("stalled reader: %v %v", got, errs))
+		// every message whose WriteMessage returned nil must have arrived, in order
+		want := []string{}
+		for i, e := range errs {
+			if e == nil {
+				want = append(want, fmt.Sprint(i+1))
+			}
+		}
+		if strings.Join(got, ",") != strings.Join(want, ",") {
+			u.Violate("tcp/stream/written-messages-not-read-intact", fmt.Sprintf("a %d MB message and two small ones over loopback TCP, the reader pausing 6.5 s inside the first: WriteMessage results %v, the reader got ids %v then %v", big>>20, errs, got, rerr), nil)
+		}
+		u.Sample("12 MB + 2 small messages through the stream codec over loopback TCP with a reader that stalls 6.5 s mid-message")
+	}}
+}
+
 func init() {
 	vh.Register(&vh.Check{
 		ID: "C17", Level: "model_checking",
@@ -826,7 +1063,7 @@ func init() {
 			if tier == "thorough" {
 				bound = 3
 			}
-			us = append(us, c17StreamWriters(2), c17Writers(bound), c17TCPCloseAfterBurst())
+			us = append(us, c17StreamWriters(2), c17Writers(bound), c17TCPCloseAfterBurst(), c17TCPPingWhileWriting(), c17TCPStalledReader())
 			return us
 		},
 	})
